@@ -8,6 +8,7 @@ which must not, and the exact relation triples; the database is read back throug
 independently, with plain sqlite3 (gvmon/dbdump.py).
 """
 import os
+import random
 
 from gvmon import dbdump
 from gvmon.gen import gtfmodels as G
@@ -20,14 +21,27 @@ RULE = ("GTF files of 1-3 genes x 1-3 transcripts x 0-4 subfeature lines ('exon'
         "shuffled over the whole file / locally / reversed / in order; transcripts without exons; files without, with some "
         "or with all gene/transcript lines of their own (either ordinary ones or ones that look exactly like derived "
         "features); default or custom gtf_transcript_key/gtf_gene_key/gtf_subfeature; each file under all four "
-        "disable_infer_transcripts x disable_infer_genes combinations. non-trivial = >= 2 transcripts in one gene and >= 1 "
-        "transcript with >= 2 subfeature lines; distinct = file text + keys + flag combination")
+        "disable_infer_transcripts x disable_infer_genes combinations. Plus three workload classes: (large) files of "
+        "1100-2500 lines whose own gene/transcript lines stand only after line 1000 / only among the first 900 lines / on "
+        "both sides / nowhere; (odd ids) gene/transcript ids and attribute values containing 'word=' (also as the value of "
+        "the first attribute of every line), '%41'-like sequences, inner/double/trailing blanks, non-ASCII letters; "
+        "(one-shot) the file handed over as a generator or iterator of Feature objects built line by line with "
+        "feature_from_line, more than checklines+2 features, checklines in {0, 1, 10}. non-trivial = >= 2 transcripts in "
+        "one gene and >= 1 transcript with >= 2 subfeature lines; distinct = file text + keys + flag combination + way of input")
 REQUIRED = ["imports", "derived features compared (id, type, seqid, strand)", "derived extents compared",
             "suppressed derived features confirmed absent", "relation rows compared", "children()/parents() calls compared with the model",
-            "gene/transcript lines of the file compared (single feature, columns, attributes)", "db[id] lookups"]
+            "gene/transcript lines of the file compared (single feature, columns, attributes)", "db[id] lookups",
+            "large files imported (> 1000 lines)", "gene/transcript lines standing after line 1000 compared",
+            "derived features of large files compared", "odd ids: files read as GTF", "odd ids: derived features compared",
+            "one-shot inputs imported (generator/iterator of Features)", "one-shot: derived extents compared (all exons)"]
 REQUIRED_CLASSES = ["flags: infer both", "flags: no transcripts", "flags: no genes", "flags: infer nothing",
                     "file: gene/transcript lines present", "file: no gene/transcript lines", "file: explicit lines look derived (merge path)",
-                    "file: transcript without exons", "keys: custom", "keys: default", "subfeature: custom"]
+                    "file: transcript without exons", "keys: custom", "keys: default", "subfeature: custom",
+                    "large: gene/transcript lines only after line 1000", "large: gene/transcript lines only among the first 900 lines",
+                    "large: gene/transcript lines on both sides of line 1000",
+                    "odd ids: eq", "odd ids: percent", "odd ids: blank", "odd ids: unicode",
+                    "input: generator of Features", "input: iterator of Features",
+                    "one-shot: checklines=0", "one-shot: checklines=1", "one-shot: checklines=10"]
 ASSUMPTIONS = [
     "the reference model gvmon/models/gtfinfer.py is a faithful reading of the statement",
     "exons (subfeature lines) of one transcript and of one gene share seqid and strand (otherwise 'the exons' seqid and "
@@ -45,10 +59,20 @@ ASSUMPTIONS = [
     "transcripts/genes without any subfeature line and without a line of their own: neither presence nor absence of a "
     "feature under their id is demanded",
     "source/score/frame/attributes of derived features are not judged",
+    "a file whose attribute column is written as quoted key \"value\" pairs separated by blanks is GTF whatever the values "
+    "contain ('=', '%41', blanks, non-ASCII): ids are the literal text between the quotes (GTF has no escapes); values do "
+    "not contain ';', ',', '\"' or tabs",
+    "large files: relations, derived features and the file's own gene/transcript lines are compared completely; "
+    "children()/parents() are called for a sample of the stored features (all gene/transcript lines of the file plus about "
+    "every 40th feature)",
+    "one-shot inputs: a generator / iterator of Features parsed one line at a time (feature_from_line, dialect inferred "
+    "per line) is the same GTF input as the file; only cases with more than checklines+2 features are generated",
 ]
 QUICK_SHARDS = 4
 THOROUGH_SHARDS = 16
 LEVELS = (1, 2, None)
+LARGE_CLASS = {"late": "large: gene/transcript lines only after line 1000", "early": "large: gene/transcript lines only among the first 900 lines",
+               "both": "large: gene/transcript lines on both sides of line 1000", "none": "large: no gene/transcript lines"}
 FLAG_NAMES = {(False, False): "flags: infer both", (True, False): "flags: no transcripts", (False, True): "flags: no genes",
               (True, True): "flags: infer nothing"}
 
@@ -62,37 +86,76 @@ def mapping_of(pairs):
     return {k: sorted(v) for k, v in pairs}
 
 
+def model_of(case):
+    """The file model of a case; large files are rebuilt from their seed (the generator is deterministic)."""
+    if case.get("model") is not None:
+        return case["model"]
+    g = case["gen"]
+    return G.large_model(random.Random(g["seed"]), g["where"], g.get("nlines"))
+
+
 def execute(ctx, case):
     import gffutils
+    from gffutils.feature import feature_from_line
 
-    m = case["model"]
+    m = model_of(case)
+    kind = case.get("kind", "gtf")
     lines = m["lines"]
     dit, dig = bool(case["dit"]), bool(case["dig"])
     tkey, gkey, sub = m["tkey"], m["gkey"], m["subfeature"]
     exp = I.expect(lines, tkey, gkey, sub, dit, dig)
     text = G.text_of(m)
-    src = ctx.tmp(".gtf")
-    with open(src, "w", encoding="utf-8", newline="") as fh:
-        fh.write(text)
+    large = len(lines) > 1000
+    how = case.get("how", "path")
     dbfn = ":memory:" if case.get("db", "memory") == "memory" else ctx.tmp(".db")
     kw = {"disable_infer_transcripts": dit, "disable_infer_genes": dig}
     if (tkey, gkey) != ("transcript_id", "gene_id"):
         kw.update(gtf_transcript_key=tkey, gtf_gene_key=gkey, id_spec={"gene": gkey, "transcript": tkey})
     if sub != "exon":
         kw["gtf_subfeature"] = sub
-    info = {"flags": kw, "text": text}
+    if "checklines" in case:
+        kw["checklines"] = int(case["checklines"])
+    info = {"flags": kw, "text": text if not large else text[:1500] + "\n... (%d lines, rebuilt from the case)" % len(lines)}
+    if how != "path":
+        info["input"] = how
+    src = None
+    if how == "path":
+        src = ctx.tmp(".gtf")
+        with open(src, "w", encoding="utf-8", newline="") as fh:
+            fh.write(text)
+        data = src
+    else:
+        if len(lines) <= int(case["checklines"]) + 2:
+            raise AssertionError("harness: one-shot case with too few features")
+        rows = text.splitlines()
+        if how == "generator":
+            data = (feature_from_line(r) for r in rows)
+        elif how == "iterator":
+            data = iter([feature_from_line(r) for r in rows])
+        else:
+            raise AssertionError("harness: unknown input %r" % (how,))
     sqltrace.reset()
     db = None
     try:
         try:
-            db = gffutils.create_db(src, dbfn, **kw)
+            db = gffutils.create_db(data, dbfn, **kw)
         except Exception as ex:
             ctx.violation(case, dict(info, why="create_db raised %s" % type(ex).__name__, error=repr(ex)))
             return
         ctx.mon("imports")
+        if how != "path":
+            ctx.mon("one-shot inputs imported (generator/iterator of Features)")
+        if large:
+            ctx.mon("large files imported (> 1000 lines)")
         if db.dialect["fmt"] != "gtf":
+            if m.get("odd"):
+                # quoted key "value" pairs: the file is GTF whatever the values contain
+                return ctx.violation(case, dict(info, why="a GTF file (quoted key \"value\" pairs) whose values contain %s is not read as "
+                                                "GTF: no genes/transcripts derived" % m["odd"], dialect=dict(db.dialect)))
             raise AssertionError("harness: generated file was not read as GTF: %r" % (text[:300],))
-        judge(ctx, case, db, exp, lines, info)
+        if m.get("odd"):
+            ctx.mon("odd ids: files read as GTF")
+        judge(ctx, case, db, exp, lines, info, m)
     finally:
         if db is not None:
             try:
@@ -100,14 +163,15 @@ def execute(ctx, case):
             except Exception:
                 pass
         for p in (src, dbfn):
-            if p != ":memory:" and os.path.exists(p):
+            if p and p != ":memory:" and os.path.exists(p):
                 os.unlink(p)
         for v in contracts.drain():
             ctx.violation(case, v)
 
 
-def judge(ctx, case, db, exp, lines, info):
-    m = case["model"]
+def judge(ctx, case, db, exp, lines, info, m):
+    large = len(lines) > 1000
+    oneshot = case.get("how", "path") != "path"
     both = not case["dit"] and not case["dig"]
     dump = dbdump.dump_db(db)
     feats = dump["features"]
@@ -126,7 +190,15 @@ def judge(ctx, case, db, exp, lines, info):
             untagged.append(f)
     want_tags = {"L%d" % i for i in range(len(lines))}
     if set(by_tag) != want_tags:
-        return ctx.violation(case, dict(info, why="input lines missing from the database", missing=sorted(want_tags - set(by_tag))))
+        missing = sorted(want_tags - set(by_tag), key=lambda t: int(t[1:]))
+        own = {"L%d" % i: ident for ident, i in exp["explicit"].items()}
+        gone = [own[t] for t in missing if t in own]
+        if gone:
+            return ctx.violation(case, dict(info, why="a gene/transcript line of the file is no longer stored (not the single feature under its id)",
+                                            ids=gone[:10], lines=[int(t[1:]) + 1 for t in missing if t in own][:10],
+                                            stored_instead=[{k: f[k] for k in ("id", "source", "featuretype", "start", "end")}
+                                                            for f in feats if f["id"] in gone[:3]]))
+        return ctx.violation(case, dict(info, why="input lines missing from the database", missing=missing[:20]))
     name2id = {}
     for i, n in enumerate(exp["names"]):
         name2id[n] = by_tag["L%d" % i]["id"] if n.startswith("@") and n == "@%d" % i else n
@@ -135,6 +207,8 @@ def judge(ctx, case, db, exp, lines, info):
         rec = lines[i]
         f = by_tag["L%d" % i]
         ctx.mon("gene/transcript lines of the file compared (single feature, columns, attributes)")
+        if i >= 1000:
+            ctx.mon("gene/transcript lines standing after line 1000 compared")
         cols = {"seqid": rec["seqid"], "source": rec["source"], "featuretype": rec["featuretype"], "start": int(rec["start"]),
                 "end": int(rec["end"]), "score": rec["score"], "strand": rec["strand"], "frame": rec["frame"]}
         got = {k: f[k] for k in cols}
@@ -172,6 +246,12 @@ def judge(ctx, case, db, exp, lines, info):
         keys = ("featuretype", "seqid", "strand", "start", "end") if both else ("featuretype",)
         if both:
             ctx.mon("derived extents compared")
+            if oneshot:
+                ctx.mon("one-shot: derived extents compared (all exons)")
+        if large:
+            ctx.mon("derived features of large files compared")
+        if m.get("odd"):
+            ctx.mon("odd ids: derived features compared")
         bad = {k: (got[k], want[k]) for k in keys if got[k] != want[k]}
         if bad:
             what = "extent" if set(bad) <= {"start", "end"} else "/".join(sorted(bad))
@@ -200,7 +280,12 @@ def judge(ctx, case, db, exp, lines, info):
     stored = [f["id"] for f in feats]
     rel = H.Relatives(triples, stored)
     types = {f["id"]: f["featuretype"] for f in feats}
-    for x in stored:
+    asked = stored
+    if large:
+        # all gene/transcript lines of the file and about every 40th stored feature (relations were compared completely)
+        asked = sorted(set(exp["explicit"]) & set(stored)) + stored[::max(1, len(stored) // 60)]
+        asked = list(dict.fromkeys(asked))
+    for x in asked:
         for level in LEVELS:
             for name, fn, model in (("children", db.children, rel.children), ("parents", db.parents, rel.parents)):
                 try:
@@ -226,8 +311,8 @@ def judge(ctx, case, db, exp, lines, info):
     ctx.mon("sql: INSERT INTO features traced", sqltrace.kinds().get("INSERT INTO features", 0))
 
 
-def classify(ctx, case):
-    m = case["model"]
+def classify(ctx, case, m=None):
+    m = m or model_of(case)
     lines = m["lines"]
     tkey, gkey, sub = m["tkey"], m["gkey"], m["subfeature"]
     ctx.classes[FLAG_NAMES[(bool(case["dit"]), bool(case["dig"]))]] += 1
@@ -249,23 +334,64 @@ def classify(ctx, case):
         names.append("file: explicit lines look derived (merge path)")
     if has_t - set(subs):
         names.append("file: transcript without exons")
+    if m.get("where"):
+        names.append(LARGE_CLASS[m["where"]])
+    if m.get("odd"):
+        names.append("odd ids: " + m["odd"])
+    if case.get("how", "path") != "path":
+        names += ["input: %s of Features" % case["how"], "one-shot: checklines=%d" % case["checklines"]]
     for n in names:
         ctx.classes[n] += 1
     return any(len(v) >= 2 for v in tx_of_gene.values()) and any(n >= 2 for n in subs.values())
 
 
+def one(ctx, case, m):
+    execute(ctx, case)
+    nontrivial = classify(ctx, case, m)
+    text = G.text_of(m)
+    ctx.case((text, m["tkey"], m["gkey"], m["subfeature"], case["dit"], case["dig"], case.get("how"), case.get("checklines")), nontrivial,
+             sample={"kind": case["kind"], "flags": [case["dit"], case["dig"]], "keys": [m["tkey"], m["gkey"], m["subfeature"]],
+                     "input": case.get("how", "path"), "text": text[:800]})
+
+
 def run(ctx):
     rng = ctx.rng
-    for _ in range(ctx.budget(700, 16000)):
+    quick = ctx.tier == "quick"
+    # -- (large) a few files of 1100-2500 lines per run: every shard takes the placements in turn ----------------
+    nlarge = 1 if quick else 4
+    for k in range(nlarge):
+        where = G.WHERE[(ctx.shard + k) % len(G.WHERE)]
+        gen = {"seed": rng.randrange(1 << 30), "where": where}
+        if quick:
+            gen["nlines"] = rng.choice([1100, 1300, 1700])
+        combos = [(False, False)] if quick else [(False, False), (True, False), (False, True), (True, True)]
+        for dit, dig in combos:
+            case = {"kind": "gtf-large", "gen": gen, "dit": dit, "dig": dig, "db": "file" if k % 2 else "memory"}
+            one(ctx, case, model_of(case))
+    # -- (odd ids) and (one-shot) -----------------------------------------------------------------------------------
+    odd_kinds = sorted(G.ODD_IDS)
+    for i in range(ctx.budget(64, 1600)):
+        m = G.model(rng, odd=odd_kinds[(i + ctx.shard) % len(odd_kinds)])
+        for dit, dig in ([(False, False)] if i % 3 else list(FLAG_NAMES)):
+            one(ctx, {"kind": "gtf-odd", "model": m, "dit": dit, "dig": dig, "db": "memory"}, m)
+    for i in range(ctx.budget(72, 1800)):
+        cl = (0, 1, 10)[(i + ctx.shard) % 3]
+        m = G.model(rng, ngenes=rng.choice([2, 3, 4, 6]) + (2 if cl == 10 else 0), odd=rng.choice(odd_kinds) if rng.random() < 0.2 else None)
+        if len(m["lines"]) <= cl + 2:
+            ctx.skip("one-shot: drawn file has no more than checklines+2 lines")
+            continue
+        how = ("generator", "iterator")[(i // 3 + ctx.shard) % 2]
+        combos = [(False, False)] + ([rng.choice([(True, False), (False, True), (True, True)])] if rng.random() < 0.25 else [])
+        for dit, dig in combos:
+            one(ctx, {"kind": "gtf-oneshot", "model": m, "how": how, "checklines": cl, "dit": dit, "dig": dig,
+                      "db": "file" if rng.random() < 0.15 else "memory"}, m)
+    # -- the basic workload --------------------------------------------------------------------------------------------
+    for _ in range(ctx.budget(640, 16000)):
         m = G.model(rng)
         dbkind = "file" if rng.random() < 0.15 else "memory"
         for dit in (False, True):
             for dig in (False, True):
-                case = {"kind": "gtf", "model": m, "dit": dit, "dig": dig, "db": dbkind}
-                execute(ctx, case)
-                nontrivial = classify(ctx, case)
-                ctx.case((G.text_of(m), m["tkey"], m["gkey"], m["subfeature"], dit, dig), nontrivial,
-                         sample={"flags": [dit, dig], "keys": [m["tkey"], m["gkey"], m["subfeature"]], "text": G.text_of(m)[:800]})
+                one(ctx, {"kind": "gtf", "model": m, "dit": dit, "dig": dig, "db": dbkind}, m)
     ctx.mon("bins.bins contract evaluations", contracts.EVALS["bins.bins"])
 
 
@@ -276,7 +402,11 @@ MANIFEST = {
             "strand, [min start, max end] of the subfeature lines), those a flag must suppress, and the exact set of relation "
             "triples; the database is compared through db[id], children()/parents() at levels 1, 2 and None, and an "
             "independent sqlite3 read of features and relations. Gene/transcript lines of the file must stay the single "
-            "feature of their id with their columns and attributes. Held = no executed import disagreed.",
+            "feature of their id with their columns and attributes. The same oracle runs on files of 1100-2500 lines "
+            "(own gene/transcript lines only after line 1000, only early, on both sides), on files whose ids and values "
+            "contain 'word=', '%41'-like sequences, blanks and non-ASCII letters (still GTF: genes/transcripts must be "
+            "derived), and on the file given as a one-shot generator/iterator of Features with checklines 0, 1, 10 (the "
+            "extents must be those of all exons). Held = no executed import disagreed.",
     "note": "Trusted: gvmon/models/gtfinfer.py, gvmon/models/hierarchy.py. Not judged: extents under a set flag, attributes of "
             "derived features, features for ids that own no subfeature.",
 }
